@@ -65,8 +65,8 @@ class NewFunctionAbs13:
 
 @contract("secsgem.gem.equipment_constants_capability:EquipmentConstantsCapability._ec_value_fits", "C13", name="EcValueFitsAbs")
 class EcValueFitsAbs:
-    """ASSUMED (call-out: it asks the constant's item class of the codec, C01): True exactly when the value lies in the range
-    the constant's type can hold (ghost fields g_tlo .. g_thi of the constant; integer-valued view of this unit)."""
+    """The post-condition proved as EcValueFits (below) for the eight integer item types: True exactly when the value lies in
+    the range the constant's type can hold (ghost fields g_tlo .. g_thi of the constant; integer-valued view of this unit)."""
 
     abstract = True
     returns = Bool
@@ -165,3 +165,31 @@ class OnS2F15:
             finally:
                 sess.close()
         return {"status": "confirmed" if failed else "spurious", "failed_clauses": failed[:6], "inputs": {"requests": [[list(x) for x in u] for u in requests]}, "observed": seen}
+
+
+# ===================================================================== the type range used by S2F15 (D49)
+import secsgem.secs.variables as _V  # noqa: E402
+
+_INT_TYPES = {"U1": (_V.U1, 0, 2 ** 8 - 1), "U2": (_V.U2, 0, 2 ** 16 - 1), "U4": (_V.U4, 0, 2 ** 32 - 1), "U8": (_V.U8, 0, 2 ** 64 - 1),
+              "I1": (_V.I1, -2 ** 7, 2 ** 7 - 1), "I2": (_V.I2, -2 ** 15, 2 ** 15 - 1), "I4": (_V.I4, -2 ** 31, 2 ** 31 - 1),
+              "I8": (_V.I8, -2 ** 63, 2 ** 63 - 1)}
+
+
+@contract("secsgem.gem.equipment_constants_capability:EquipmentConstantsCapability._ec_value_fits", "C13")
+class EcValueFits:
+    """What EcValueFitsAbs assumes, proved for the eight integer item types by running the real item classes (C01): for any
+    integer value the answer is True exactly when the value lies in the type's range."""
+
+    cases = [(name, {"name": name}) for name in _INT_TYPES]
+
+    def inputs(name):
+        cls, lo, hi = _INT_TYPES[name]
+        return {"self": Obj(GemEquipmentHandler), "equipment_constant": Obj(EquipmentConstant, value_type=Const(cls), g_tlo=Const(lo), g_thi=Const(hi)),
+                "value": Int}
+
+    def raises():
+        return {}
+
+    def ensures(self, equipment_constant, value, result):
+        # literally the post-condition of EcValueFitsAbs, with the ghost limits set to the range of the type
+        return result == (equipment_constant.g_tlo <= value and value <= equipment_constant.g_thi)
